@@ -36,6 +36,7 @@ static CUR: AtomicUsize = AtomicUsize::new(0);
 static PEAK: AtomicUsize = AtomicUsize::new(0);
 unsafe impl GlobalAlloc for Counting {
     unsafe fn alloc(&self, l: Layout) -> *mut u8 {
+        if l.size() > HUGE_REQUEST { huge_request(l.size()); }
         let p = unsafe { System.alloc(l) };
         if !p.is_null() {
             let c = CUR.fetch_add(l.size(), Ordering::Relaxed) + l.size();
@@ -48,6 +49,7 @@ unsafe impl GlobalAlloc for Counting {
         CUR.fetch_sub(l.size(), Ordering::Relaxed);
     }
     unsafe fn realloc(&self, p: *mut u8, l: Layout, new: usize) -> *mut u8 {
+        if new > HUGE_REQUEST { huge_request(new); }
         let q = unsafe { System.realloc(p, l, new) };
         if !q.is_null() {
             if new >= l.size() {
@@ -62,6 +64,19 @@ unsafe impl GlobalAlloc for Counting {
 }
 #[global_allocator]
 static GLOBAL: Counting = Counting;
+
+/// A single request above this would end the process (allocation failure aborts, it does not
+/// unwind), so the allocator itself reports it with the input of the call in progress.
+const HUGE_REQUEST: usize = 2 << 30;
+static WATCH: std::sync::OnceLock<Arc<Watch>> = std::sync::OnceLock::new();
+static IN_HUGE: AtomicBool = AtomicBool::new(false);
+fn huge_request(size: usize) {
+    if IN_HUGE.swap(true, Ordering::SeqCst) { return; }
+    let (what, bytes) = match WATCH.get().and_then(|w| w.cur.try_lock().ok().map(|c| (c.0.clone(), c.1.clone()))) { Some(x) => x, None => ("(unknown call)".to_string(), vec![]) };
+    println!("{}", obj(&[("t", esc("viol")), ("key", esc("huge-allocation-request")), ("desc", esc(&format!("a single allocation request of {} bytes during {}", size, what))), ("bytes", esc(&hex(&bytes[..bytes.len().min(20000)]))), ("profile", esc(profile()))]));
+    println!("{}", obj(&[("t", esc("stat")), ("profile", esc(profile())), ("aborted", esc("huge-allocation-request"))]));
+    std::process::exit(0);
+}
 
 const MEM_CONST: usize = 64 << 20;
 const MEM_PER_BYTE: usize = 64;
@@ -310,6 +325,61 @@ fn worker(watch: Arc<Watch>) {
         }
     }
 
+    // ---------------- metadata blocks whose declared counts and lengths are extreme while the
+    // block itself is short (a count must never be trusted for an allocation before the items
+    // are actually read) — one valid frame follows, so every file reader gets past the blocks
+    {
+        let mut w = Cursor::new(Vec::new());
+        let mut sw = flac_codec::encode::FlacStreamWriter::new(&mut w, flac_codec::encode::Options::default());
+        let _ = sw.write(44100, 1, 16, &gen_pcm(&mut rng, "walk", 1, 16, 16));
+        drop(sw);
+        let frame = w.into_inner();
+        let si = Si { min_bs: 16, max_bs: 16, min_fs: 0, max_fs: 0, rate: 44100, ch: 1, bps: 16, total: 16, md5: [0; 16] };
+        let big: [u32; 6] = [1 << 20, 1 << 24, 1 << 28, 0x7FFF_FFFF, 0x8000_0000, 0xFFFF_FFFF];
+        let mut blocks: Vec<(String, u8, Vec<u8>)> = vec![];
+        for &n in &big {
+            // VORBIS_COMMENT: vendor length, field count, field length (little-endian)
+            let le = n.to_le_bytes();
+            blocks.push((format!("vorbis-comment vendor-length {:#x}", n), 4, le.to_vec()));
+            blocks.push((format!("vorbis-comment field-count {:#x}", n), 4, [&[0u8, 0, 0, 0][..], &le].concat()));
+            blocks.push((format!("vorbis-comment field-count {:#x} then one field", n), 4, [&[0u8, 0, 0, 0][..], &le, &[3, 0, 0, 0], b"A=b"].concat()));
+            blocks.push((format!("vorbis-comment field-length {:#x}", n), 4, [&[0u8, 0, 0, 0][..], &[1, 0, 0, 0], &le].concat()));
+            // PICTURE: type, mime length, description length, dims, data length (big-endian)
+            let be = n.to_be_bytes();
+            blocks.push((format!("picture mime-length {:#x}", n), 6, [&[0u8, 0, 0, 3][..], &be].concat()));
+            blocks.push((format!("picture description-length {:#x}", n), 6, [&[0u8, 0, 0, 3][..], &[0, 0, 0, 0], &be].concat()));
+            blocks.push((format!("picture data-length {:#x}", n), 6, [&[0u8, 0, 0, 3][..], &[0, 0, 0, 0], &[0, 0, 0, 0], &[0u8; 16][..], &be].concat()));
+        }
+        // CUESHEET: track count 255, index-point count 255, with nothing behind them
+        let mut cs = vec![0u8; 128 + 8 + 1 + 258];
+        cs.push(255);
+        blocks.push(("cuesheet track-count 255 and no tracks".into(), 5, cs.clone()));
+        cs.pop();
+        cs.push(1);
+        cs.extend_from_slice(&[0u8; 8]);
+        cs.push(1);
+        cs.extend_from_slice(&[0u8; 12 + 1 + 13]);
+        cs.push(255);
+        blocks.push(("cuesheet index-count 255 and no index points".into(), 5, cs));
+        // SEEKTABLE / APPLICATION / reserved types with odd sizes
+        blocks.push(("seektable of 17 bytes".into(), 3, vec![0xFF; 17]));
+        blocks.push(("application of 3 bytes".into(), 2, vec![1, 2, 3]));
+        blocks.push(("reserved type 99".into(), 99, vec![0; 5]));
+        for (what, ty, body) in &blocks {
+            // (i) the block length field says what is there; (ii) it claims 2^24-1 bytes
+            for claim_all in [false, true] {
+                let mut f = si.file_header(None);
+                f[4] = 0x00;
+                f.push(0x80 | ty);
+                let len = if claim_all { 0xFF_FFFFu32 } else { body.len() as u32 };
+                f.extend_from_slice(&len.to_be_bytes()[1..]);
+                f.extend_from_slice(body);
+                f.extend_from_slice(&frame);
+                cx.run_file("metadata-extremes", &format!("{}{}", what, if claim_all { " (block length 0xFFFFFF)" } else { "" }), &f);
+            }
+        }
+    }
+
     // ---------------- (a) one-field mutations of valid frames, checksums recomputed
     let n_a = scale(if thorough { 30000 } else { 2500 });
     let mut done_a = 0usize;
@@ -456,6 +526,7 @@ fn worker(watch: Arc<Watch>) {
 fn main() {
     let watch = Arc::new(Watch { run: AtomicU64::new(0), start_ms: AtomicU64::new(u64::MAX), done: AtomicBool::new(false), cur: Mutex::new((String::new(), vec![])) });
     let w2 = watch.clone();
+    let _ = WATCH.set(watch.clone());
     let t0 = std::time::Instant::now();
     let h = std::thread::Builder::new().stack_size(64 << 20).spawn(move || worker(w2)).unwrap();
     // watchdog: the worker stamps start_ms (relative to its own t0, created right after ours)
